@@ -235,6 +235,16 @@ def _ev(n, src, env):
         if isinstance(v, Aff):
             return v
         return Aff(v)
+    if isinstance(n, ast.Compare) and len(n.ops) == 1:
+        a = _ev(n.left, src, env)
+        b = _ev(n.comparators[0], src, env)
+        if not (a.is_const() and b.is_const()):
+            raise NonAffine('comparison of unknowns')
+        import operator as _op
+        fn = {ast.Lt: _op.lt, ast.LtE: _op.le, ast.Gt: _op.gt, ast.GtE: _op.ge, ast.Eq: _op.eq, ast.NotEq: _op.ne}.get(type(n.ops[0]))
+        if fn is None:
+            raise Unsupported('comparison')
+        return Aff(Fraction(1 if fn(a.c, b.c) else 0))
     if isinstance(n, ast.Call) and isinstance(n.func, ast.Name) and n.func.id in ('min', 'max', 'abs', 'float'):
         args = [_ev(x, src, env) for x in n.args]
         if not all(x.is_const() for x in args):
